@@ -261,6 +261,131 @@ def fsm_shard(kind, tr0, ev0):
     return tally
 
 
+class TwoHookSystem:
+    """two state hooks on ONE module: events on one never change the firing, order or handles of the other;
+    `prepend` decides the relative order among same-position hooks"""
+
+    def __init__(self, pre1, pre2, prepend2):
+        self.pre = (pre1, pre2)
+        self.prepend2 = prepend2
+        self.config = {"kind": "two-state-hooks", "as_prehook": [pre1, pre2], "second_prepends": prepend2}
+
+    def build(self, history):
+        st = St()
+        st.log = []
+        st.m = Target(st.log)
+
+        class P(StateHook):
+            def __init__(s2, module, tag, **kw):
+                StateHook.__init__(s2, module, **kw)
+                s2._t = tag
+
+            def hook(s2, module):
+                st.log.append(s2._t)
+
+        st.h = [P(st.m, "h0", as_prehook=self.pre[0]), P(st.m, "h1", as_prehook=self.pre[1], prepend=self.prepend2)]
+        st.reg = [False, False]
+        st.alive = [True, True]
+        st.order = []  # registration order of currently registered hooks
+        st.training = True
+        for op in history:
+            self.step(st, op, check=False)
+        return st
+
+    def queries(self, st):
+        return ()
+
+    def mutations(self, st):
+        yield ("call",)
+        yield ("module.eval",)
+        yield ("module.train",)
+        for i in (0, 1):
+            if st.alive[i]:
+                yield ("register", i)
+                yield ("deregister", i)
+                yield ("delete", i)
+
+    def step(self, st, op, check=True):
+        del st.log[:]
+        name = op[0]
+        exp = None
+        try:
+            if name == "call":
+                st.m(torch.zeros(1))
+                pres, posts = [], []
+                for i in st.order:
+                    tgt = pres if self.pre[i] else posts
+                    if i == 1 and self.prepend2:
+                        tgt.insert(0, f"h{i}")
+                    else:
+                        tgt.append(f"h{i}")
+                exp = pres + ["forward"] + posts
+            elif name == "module.eval":
+                st.m.eval()
+                st.training = False
+                exp = []
+            elif name == "module.train":
+                st.m.train()
+                st.training = True
+                exp = []
+            elif name == "register":
+                i = op[1]
+                st.h[i].register()
+                if not st.reg[i]:
+                    st.reg[i] = True
+                    st.order.append(i)
+                exp = []
+            elif name == "deregister":
+                i = op[1]
+                st.h[i].deregister()
+                if st.reg[i]:
+                    st.reg[i] = False
+                    st.order.remove(i)
+                exp = []
+            elif name == "delete":
+                i = op[1]
+                st.h[i] = None
+                gc.collect()
+                st.alive[i] = False
+                if st.reg[i]:
+                    st.reg[i] = False
+                    st.order.remove(i)
+                exp = []
+        except Exception as ex:
+            if not check:
+                raise
+            return [(f"exception:two-hooks:{name}:{type(ex).__name__}", f"{op} raised {type(ex).__name__}: {ex}", None, repr(ex))]
+        if not check:
+            return []
+        bad = []
+        got = list(st.log)
+        if got != exp:
+            what = "order" if sorted(got) == sorted(exp) else ("fired-unarmed" if len(got) > len(exp) else "missed")
+            bad.append((f"two-hooks:{what}:{name}", f"{op} with registered order {st.order}: observed {got}, expected {exp}", exp, got))
+        nh = len(st.m._forward_hooks) + len(st.m._forward_pre_hooks)
+        if nh != len(st.order):
+            bad.append((f"two-hooks:handles:{name}", f"after {op}: {nh} live handles, expected {len(st.order)}", len(st.order), nh))
+        return bad
+
+    def canon(self, st):
+        return (tuple(st.order), tuple(st.alive), st.training)
+
+
+def two_hook_shard(pre1, pre2, prepend2):
+    tally = Tally()
+    sysm = TwoHookSystem(pre1, pre2, prepend2)
+
+    def nontrivial(st, op):
+        if op[0] == "call":
+            return ("two", pre1, pre2, prepend2, tuple(st.order))
+        return None
+
+    res = explore(sysm, tally, nontrivial=nontrivial)
+    if res["fixpoint"]:
+        tally.add("fixpoint_configs2")
+    return tally
+
+
 # ---------------------------------------------------------------------------------------
 # Part B
 
@@ -399,6 +524,10 @@ def run(rep):
         for tr0 in (True, False):
             for ev0 in (True, False):
                 jobs.append((fsm_shard, (kind, tr0, ev0)))
+    for pre1 in (False, True):
+        for pre2 in (False, True):
+            for prepend2 in (False, True):
+                jobs.append((two_hook_shard, (pre1, pre2, prepend2)))
     for i in range(6):
         jobs.append((post_shard, ("clamp", rep.tier, i)))
     for i in range(5):
@@ -417,6 +546,7 @@ def run(rep):
         "traces_validated_against_impl": c.get("transitions", 0),
         "max_depth": c.get("max_depth", 0),
         "fsm_configurations": len(KINDS) * 4,
+        "two_hook_configurations_at_fixpoint": c.get("fixpoint_configs2", 0),
         "fixpoint_configurations": c.get("fixpoint_configs", 0),
         "exhaustive": c.get("fixpoint_configs", 0) == len(KINDS) * 4,
         "postcondition_evaluations": c.get("evaluations", 0),
